@@ -453,8 +453,18 @@ pub fn held_handle_case(a: &Args, idx: u64, acc: &mut Acc) {
 /// handles): one file, many read/seek scripts, moderate offsets; async physical files included on purpose (their
 /// handle is a third-party type).
 pub fn async_handle_case(a: &Args, idx: u64, acc: &mut Acc) {
+    async_handle_case_inner(a, idx, acc, false)
+}
+
+/// C13's variant: offsets i64::MIN .. i64::MAX; results are not compared (a File and a Cursor legitimately differ
+/// out there), only panics count
+pub fn async_handle_case_extreme(a: &Args, idx: u64, acc: &mut Acc) {
+    async_handle_case_inner(a, idx, acc, true)
+}
+
+fn async_handle_case_inner(a: &Args, idx: u64, acc: &mut Acc, extreme: bool) {
     use crate::props::c14::{cmp_results, gen_bytes, gen_read_script, render_rs};
-    let mut rng = Rng::derive(a.seed, "c15-handles", idx);
+    let mut rng = Rng::derive(a.seed, if extreme { "c13-async-handles" } else { "c15-handles" }, idx);
     let cfg = match rng.below(8) {
         0 | 1 => Cfg::Mem,
         2 | 3 => Cfg::Phys,
@@ -480,7 +490,7 @@ pub fn async_handle_case(a: &Args, idx: u64, acc: &mut Acc) {
     ab.ctl.set_schedule(sched.clone());
     acc.evaluations += 1;
     for k in 0..4u64 {
-        let script = gen_read_script(&mut rng, content.len(), false);
+        let script = gen_read_script(&mut rng, content.len(), extreme);
         let reference = crate::ops::run_rscript(&mut std::io::Cursor::new(content.clone()), &script);
         let root = ab.root.clone();
         let got = guard(|| {
@@ -501,6 +511,7 @@ pub fn async_handle_case(a: &Args, idx: u64, acc: &mut Acc) {
                 acc.violate(Violation { property: "C15", signature: format!("async-handle|open-failed|{}", cfg.family()), summary: format!("opening an existing file through the async port failed: {}", e), detail: detail(), order: idx * 10 + k });
                 return;
             }
+            Ok(Ok(_)) if extreme => {}
             Ok(Ok(res)) => {
                 if let Some(i) = cmp_results(&res, &reference) {
                     let step = match &script[i] { crate::ops::RStep::Read(0) => "read0", crate::ops::RStep::Read(_) => "read", crate::ops::RStep::Seek(..) => "seek", crate::ops::RStep::ReadToEnd => "read_to_end" };
